@@ -173,7 +173,11 @@ def run(rep):
     tier, rng = rep.tier, Rng(rep.seed)
     cov = rep.cov
     broken = []
-    po = common.proof_obligations(PROP_FILES)
+    # translator: view_leader / leader_weighted_eligibility / Schedule::get regenerated from schedule.rs;
+    # Properties/C11Gen.v proves them equal to Model/Leader.v
+    import rust2coq
+    translator, gen_files = rust2coq.step(["leader"], ["theories/Properties/C11Gen.v"], broken)
+    po = common.proof_obligations(PROP_FILES + gen_files)
     if not po["ok"]:
         broken.append("Coq obligations of Properties/C11.v: " + (po["log_tail"] or str(po["hygiene_problems"] or po["bad_axioms"])))
     ok, out = common.cargo_build(["leader"], "dev")
@@ -230,8 +234,8 @@ def run(rep):
         "obligations": po["obligations"] + 1,
         "discharged": po["discharged"] + (0 if mm else 1),
         "checker_cmd": "make -C coq theories/Properties/C11.vo + coqc on generated cases_*.v (vm_compute of Model.Leader.run_case)",
-        "trusted_base": common.standard_trusted_base(["keccak256 is uninterpreted in the theorems (they hold for every digest); in the correspondence the digest computed by the Rust side is passed to the model"]),
-        "theorems": po["theorems"], "axioms": po["axioms"],
+        "trusted_base": common.standard_trusted_base(["keccak256 is uninterpreted in the theorems (they hold for every digest); in the correspondence the digest computed by the Rust side is passed to the model"] + translator["trusted"]),
+        "theorems": po["theorems"], "axioms": po["axioms"], "translator": translator,
         "evaluations": queries,
         "distinct_nontrivial": len(dist),
         "rule": "schedules of 1-12 pool keys (shuffled, with permuted twin), random eligibility subsets, weights 1..2^60, both modes, frequencies {0,1,2,3,7,10,2^32,u64::MAX,random}, views 0..23 + boundaries + random u64; invalid schedules (duplicate, zero weight, overflow, empty, no leader) ~12%; non-trivial = distinct (schedule, frequency, mode, view) leader queries on accepted schedules",
